@@ -142,6 +142,11 @@ const PUSH_GLOB: &[&str] = &[
     "\u{fc}ber*\n\u{dc}BER cool \u{fc}bermensch",
     "\n",
     "?\n\u{1F600}",
+    // literal patterns that start with punctuation (the specification's own `@room`), met inside and between words
+    "@room\nhello x@roomy, mail@rooms.example and @room look",
+    "#tag\nsee#tagged #tag!",
+    "\u{1F600}\nab\u{1F600}cd \u{1F600}",
+    "-x\na-x-x b-x -x",
 ];
 const PUSH_EDITS: &[&str] = &[
     r###"{"start":"server_default","ops":[{"op":"insert","kind":"override","rule_id":"a","actions":["notify"],"conditions":[{"kind":"event_match","key":"type","pattern":"m.room.message"}]},{"op":"insert","kind":"override","rule_id":"b","after":"a"},{"op":"insert","kind":"content","rule_id":"c","pattern":"c*","before":".m.rule.contains_user_name"},{"op":"set_enabled","kind":"override","rule_id":".m.rule.master","enabled":true},{"op":"set_actions","kind":"underride","rule_id":".m.rule.message","actions":["notify",{"set_tweak":"highlight","value":false}]},{"op":"remove","kind":"override","rule_id":"a"},{"op":"get","kind":"content","rule_id":"c"}]}"###,
